@@ -12,7 +12,11 @@
 //     (deadlock: every goroutine durably blocked in the bubble and no timer; hang/*: blocked on the mutex).
 //
 // At quiescence (no message pending, no section in flight, no retry timer; world.final):
-//   - release/*: no replica still holds a pre-commit for a version that no replica has installed;
+//   - release/*: no replica still holds a pre-commit for a version that no replica has installed; nor one
+//     (for any version) whose section never committed and whose proposer's later Abort was delivered to
+//     the replica while it held it ("abort-ignored").  A replica that merely missed messages (a lost
+//     Commit, or a lost Abort the proposer stopped re-sending because its version moved) is stale, not
+//     judged;
 //   - no-progress: each node in turn runs one increment alone without faults; at least one commits.
 //
 // Nothing else is demanded: a section may abort for any reason, a node may give up after max_attempts.
